@@ -2,12 +2,12 @@ import P2sh.Props.FnVm
 set_option linter.unusedSimpArgs false
 set_option linter.unusedVariables false
 /-!
-# The machine with functions, closures AND ARRAYS is a refinement of the VM model
+# The machine with functions, closures AND CONTAINERS (arrays, maps with plain keys) is a refinement of the VM model
 
 `Props/FnVm.lean` proves `fstep_refines_partial`: one `Core.Fn.fstep` is one iteration of the VM model's loop, for every
 instruction except `Array` / `Map` / `GetIndex` / `SetIndex` (`noHeapI`), under a relation `FRel` in which every value is a
-scalar and `Core/Fn`'s container heap `FSt.a` is unconstrained.  This file covers `Array n`, `GetIndex` and `SetIndex` ON
-ARRAYS, and re-proves every step lemma of `FnVm` under the relation that this needs.
+scalar and `Core/Fn`'s container heap `FSt.a` is unconstrained.  This file covers `Array n`, `Map n`, `GetIndex` and `SetIndex`
+(arrays; maps WITH PLAIN KEYS), and re-proves every step lemma of `FnVm` under the relation that this needs.
 
 **Why a new relation, and why all the steps again.**  `Core/Fn` has TWO heaps — the closure cells `FSt.h` (cell id = index in a
 list) and the containers `FSt.a` (ids from `a.next`) —, the VM model ONE (`St.heap`: the closures' free-variable vectors and
@@ -17,24 +17,33 @@ by evaluation).  So BOTH kinds of id correspond through an injection, not only t
 
 * `Ren` (`c`: closure cell ↦ VM object, `o`: container ↦ VM object), `rn ρ : Val → Val` (references renamed, every other value
   the same — values are shallow: a reference carries no payload);
-* `HRelH ρ hp h a` — the heap relation: closure cell `i` of `h` is the VM's array object `ρ.c i` (contents renamed), array
-  object `id` of `a` is the VM's array object `ρ.o id` (elements renamed: the value relation extended to references, pointwise);
+* `HRelH ρ hp h a` — the heap relation: closure cell `i` of `h` is the VM's array object `ρ.c i` (contents renamed), object
+  `id` of `a` is the VM's object `ρ.o id` renamed (`rnO`: the elements of an array, the VALUES of a map's entries — the value
+  relation extended to references, pointwise; the keys of a map are plain values, the same on both sides);
   `ρ` injective on what exists, cells and containers apart, everything below `hp.next`, no container at VM id 0;
   `allocCell` / `allocObj` (the renaming is EXTENDED: `Ren.addC` / `Ren.addO`), `setCell` / `setObj`;
 * `FRelH K ρ fs d vs` — `FnVm.FRel` with stack, globals, cells, objects renamed by `ρ` (`SRel … (fs.stk.map (rn ρ)) d`: the
   shadow of defined slots is `FnVm`'s), and `okv` (closures name existing cells, array references are shallow and name existing
-  array objects, no map value) instead of `scalar`;
-* `step_array`, `step_getIndex`, `step_setIndex` — the new steps (`reflect` on a new array of renamed well-formed values
-  allocates exactly ONE object: `reflect_newArr`; the VM's `execIndex` on the renamed object);
+  objects of their kind) and `okO` (the keys of every map object are plain) instead of `scalar`;
+* `step_array`, `step_hmap`, `step_getIndex`, `step_setIndex` — the new steps (`reflect` on a new array of renamed well-formed
+  values allocates exactly ONE object: `reflect_newArr`; the VM's `execIndex` on the renamed object);
+* maps: with plain keys `Core/Fn`'s association view IS the `HashMap` model — `insertKV_eq` (`insertKV` = `HMap.insert`),
+  `lookupKV_eq` (`lookupKV` = `HMap.get?`), `insert_stored` (what `build_map` / `exec_index_expr` store — the entries zipped
+  back onto their original keys, or the new pair appended — is the table after `insert`), `insert_rnP` / `get?_rnP` (renaming
+  the values commutes), `wpe_build` (the VM's `build_map` loop computes `buildMap`), `wpe_reifyKeys`;
 * `step_…` for the 27 instructions of `FnVm`, under `FRelH` (`Closure` extends the renaming; truth tests — `Bang`, `JumpIfFalse`,
   `JumpIfFalseNoPop` — look into arrays on both sides: `falsey_rel`);
 * `fstep_refines_heap_partial` — one `fstep` = one `tick`, `∃ ρ'`, `FRelH` preserved; `fsteps_refine_heap_partial`,
   `run_refines_heap_partial`, `program_run_refines_heap_partial` (composed with `Core.Fn.program_correct_fn`: the VM's final
-  globals are the evaluator's renamed, its heap holds the evaluator's cells and arrays);
-* `Example.array_run` — `let x = [1, 2]; fn get(a) { a[1] } x[1] = 5; let y = get(x);`: every hypothesis by `rfl` / `decide`.
+  globals are the evaluator's renamed, its heap holds the evaluator's cells, arrays and maps);
+* `Example.array_run` — `let x = [1, 2]; fn get(a) { a[1] } x[1] = 5; let y = get(x);`: every hypothesis by `rfl` / `decide`;
+  `Example.map_run` — `let m = map {'a': 10, 'b': 20}; m['a'] = 11; m['c'] = [7]; let z = m['a']; let w = m['c'][0];`
+  (the checked run and the evaluation by `decide +kernel`).
 
 **Partial / excluded** (`preOkH`):
-* `Map n` and every map value (`okv (.map ..) = False`): the `HashMap` model vs `Core/Fn`'s association view is NOT done;
+* MAP KEYS THAT ARE NOT PLAIN: the keys of a `Map n` literal (`plainKeys`) and the key of a `GetIndex` / `SetIndex` on a map
+  (`idxPlain`) must be plain values (no array as a key, no closure): an array key is compared through `view` in `Core/Fn` and
+  through `reify … reifyDepth` in the VM (see `Deep.deep_eq_diverges`);
 * calls of builtin functions (as in `FnVm`: the callee of a `Call` is a closure);
 * OPERATORS ON REFERENCES: `op` needs both operands plain (`plainTop2`: no closure, no container) — `==` / `+` on arrays go
   through `reify` / `reflect` in the VM and are not covered.  Truth tests on arrays ARE covered.
@@ -82,11 +91,11 @@ theorem plain_scalar {v : Val} (h : plain v = true) : scalar v = true := by
 @[simp] theorem rn_null (ρ : Ren) : rn ρ .null = .null := rfl
 
 /-- a well-formed value of a state whose closure heap has `hn` cells and whose container heap is `a`: a closure names an
-existing cell, an array reference is SHALLOW (no payload) and names an existing array object; maps are not covered -/
+existing cell, an array / a map reference is SHALLOW (no payload) and names an existing array / map object -/
 def okv (hn : Nat) (a : Heap) : Val → Prop
   | .clos _ _ id => id < hn
   | .arr id xs => xs = [] ∧ ∃ ys, a.get? id = some (.arr ys)
-  | .map _ _ => False
+  | .map id kvs => kvs = [] ∧ ∃ ps, a.get? id = some (.map ps)
   | _ => True
 
 def oks (hn : Nat) (a : Heap) (l : List Val) : Prop := ∀ v ∈ l, okv hn a v
@@ -144,16 +153,24 @@ theorem oks_getD {l : List Val} (h : oks hn a l) (i : Nat) : okv hn a (l.getD i 
 
 end oks
 
-theorem okv_mono {hn hn' : Nat} {a a' : Heap} {v : Val} (hle : hn ≤ hn')
-    (ha : ∀ id ys, a.get? id = some (.arr ys) → ∃ ys', a'.get? id = some (.arr ys')) (hv : okv hn a v) : okv hn' a' v := by
+/-- every object of `a` is still an object of `a'`, an array an array, a map a map -/
+def Keeps (a a' : Heap) : Prop :=
+  (∀ id ys, a.get? id = some (.arr ys) → ∃ ys', a'.get? id = some (.arr ys')) ∧
+  (∀ id ps, a.get? id = some (.map ps) → ∃ ps', a'.get? id = some (.map ps'))
+
+theorem Keeps.refl (a : Heap) : Keeps a a := ⟨fun _ ys h => ⟨ys, h⟩, fun _ ps h => ⟨ps, h⟩⟩
+
+theorem okv_mono {hn hn' : Nat} {a a' : Heap} {v : Val} (hle : hn ≤ hn') (ha : Keeps a a') (hv : okv hn a v) : okv hn' a' v := by
   cases v <;> try trivial
   case clos fd fr id => exact Nat.lt_of_lt_of_le hv hle
   case arr id xs =>
     obtain ⟨h1, ys, hy⟩ := hv
-    exact ⟨h1, ha id ys hy⟩
+    exact ⟨h1, ha.1 id ys hy⟩
+  case map id kvs =>
+    obtain ⟨h1, ps, hy⟩ := hv
+    exact ⟨h1, ha.2 id ps hy⟩
 
-theorem oks_mono {hn hn' : Nat} {a a' : Heap} {l : List Val} (hle : hn ≤ hn')
-    (ha : ∀ id ys, a.get? id = some (.arr ys) → ∃ ys', a'.get? id = some (.arr ys')) (hl : oks hn a l) : oks hn' a' l :=
+theorem oks_mono {hn hn' : Nat} {a a' : Heap} {l : List Val} (hle : hn ≤ hn') (ha : Keeps a a') (hl : oks hn a l) : oks hn' a' l :=
   fun v hv => okv_mono hle ha (hl v hv)
 
 /-- two renamings that agree on the ids in range rename a well-formed value alike -/
@@ -164,11 +181,40 @@ theorem rn_congr {ρ ρ' : Ren} {hn : Nat} {a : Heap} {v : Val} (hv : okv hn a v
   case arr id xs =>
     obtain ⟨_, ys, hy⟩ := hv
     simp [rn, ho id _ hy]
-  case map => exact hv.elim
+  case map id kvs =>
+    obtain ⟨_, ps, hy⟩ := hv
+    simp [rn, ho id _ hy]
 
 theorem map_rn_congr {ρ ρ' : Ren} {hn : Nat} {a : Heap} {l : List Val} (hl : oks hn a l) (hc : ∀ i, i < hn → ρ'.c i = ρ.c i)
     (ho : ∀ i o, a.get? i = some o → ρ'.o i = ρ.o i) : l.map (rn ρ') = l.map (rn ρ) :=
   List.map_congr_left fun v hv => rn_congr (hl v hv) hc ho
+
+/-- the entries of a map object: the keys are plain values (`preOkH`), the values are renamed -/
+def rnP (ρ : Ren) (p : Val × Val) : Val × Val := (p.1, rn ρ p.2)
+
+/-- a heap object renamed -/
+def rnO (ρ : Ren) : HObj → HObj
+  | .arr xs => .arr (xs.map (rn ρ))
+  | .map ps => .map (ps.map (rnP ρ))
+
+/-- a well-formed heap object: the elements of an array are well-formed; the keys of a map are PLAIN, its values well-formed -/
+def okO (hn : Nat) (a : Heap) : HObj → Prop
+  | .arr xs => oks hn a xs
+  | .map ps => ∀ p ∈ ps, plain p.1 = true ∧ okv hn a p.2
+
+theorem okO_mono {hn hn' : Nat} {a a' : Heap} {o : HObj} (hle : hn ≤ hn') (ha : Keeps a a') (ho : okO hn a o) : okO hn' a' o := by
+  cases o with
+  | arr xs => exact oks_mono hle ha ho
+  | map ps => exact fun p hp => ⟨(ho p hp).1, okv_mono hle ha (ho p hp).2⟩
+
+theorem rnO_congr {ρ ρ' : Ren} {hn : Nat} {a : Heap} {o : HObj} (hO : okO hn a o) (hc : ∀ i, i < hn → ρ'.c i = ρ.c i)
+    (ho : ∀ i o, a.get? i = some o → ρ'.o i = ρ.o i) : rnO ρ' o = rnO ρ o := by
+  cases o with
+  | arr xs => simp only [rnO]; rw [map_rn_congr hO hc ho]
+  | map ps =>
+    simp only [rnO]
+    congr 1
+    exact List.map_congr_left fun p hp => by simp only [rnP]; rw [rn_congr (hO p hp).2 hc ho]
 
 /-! ## `Core/Fn`'s heap operations are the model's -/
 
@@ -194,6 +240,38 @@ theorem get?_set_some {hp : Heap} {id id' : Nat} {o o' : HObj} (h : (hp.set id o
   · simp only [hx, if_false] at h
     exact ⟨o, h⟩
 
+theorem get?_alloc_old {a : Heap} {o o' : HObj} (hab : ∀ id o, a.get? id = some o → id < a.next) {id : Nat}
+    (hid : a.get? id = some o') : (a.alloc o).1.get? id = some o' := by
+  rw [get?_alloc_other a _ _ (by have := hab id _ hid; omega)]; exact hid
+
+theorem Keeps.alloc {a : Heap} (hab : ∀ id o, a.get? id = some o → id < a.next) (o : HObj) : Keeps a (a.alloc o).1 :=
+  ⟨fun _ ys hid => ⟨ys, get?_alloc_old hab hid⟩, fun _ ps hid => ⟨ps, get?_alloc_old hab hid⟩⟩
+
+theorem Keeps.setArr {a : Heap} {id : Nat} {ys : List Val} (hid : a.get? id = some (.arr ys)) (ys' : List Val) : Keeps a (a.set id (.arr ys')) := by
+  constructor
+  · intro id' zs hid'
+    by_cases hx : id' = id
+    · subst hx; exact ⟨_, get?_set_self hid'⟩
+    · exact ⟨zs, by rw [get?_set_other hx]; exact hid'⟩
+  · intro id' ps hid'
+    by_cases hx : id' = id
+    · subst hx; rw [hid] at hid'; cases hid'
+    · exact ⟨ps, by rw [get?_set_other hx]; exact hid'⟩
+
+theorem Keeps.setMap {a : Heap} {id : Nat} {ps : List (Val × Val)} (hid : a.get? id = some (.map ps)) (ps' : List (Val × Val)) :
+    Keeps a (a.set id (.map ps')) := by
+  constructor
+  · intro id' zs hid'
+    by_cases hx : id' = id
+    · subst hx; rw [hid] at hid'; cases hid'
+    · exact ⟨zs, by rw [get?_set_other hx]; exact hid'⟩
+  · intro id' qs hid'
+    by_cases hx : id' = id
+    · subst hx; exact ⟨_, get?_set_self hid'⟩
+    · exact ⟨qs, by rw [get?_set_other hx]; exact hid'⟩
+
+theorem okO_len {hn hn' : Nat} {a : Heap} {o : HObj} (e : hn = hn') (ho : okO hn a o) : okO hn' a o := e ▸ ho
+
 /-! ## the heap relation -/
 
 /-- the two heaps of `Core/Fn` inside the VM's heap, through the renaming `ρ`:
@@ -204,7 +282,7 @@ theorem get?_set_some {hp : Heap} {id id' : Nat} {o o' : HObj} (h : (hp.set id o
   VM heap's `next` (a new object is new for both), no container has VM id 0 (`reflect` reads id 0 as "not yet stored") -/
 structure HRelH (ρ : Ren) (hp : Heap) (h : List (List Val)) (a : Heap) : Prop where
   cells : ∀ id fr, h[id]? = some fr → hp.getArr (ρ.c id) = fr.map (rn ρ)
-  objs : ∀ id ys, a.get? id = some (.arr ys) → hp.get? (ρ.o id) = some (.arr (ys.map (rn ρ)))
+  objs : ∀ id o, a.get? id = some o → hp.get? (ρ.o id) = some (rnO ρ o)
   cb : ∀ id, id < h.length → ρ.c id < hp.next
   ob : ∀ id o, a.get? id = some o → ρ.o id < hp.next ∧ ρ.o id ≠ 0
   ab : ∀ id o, a.get? id = some o → id < a.next
@@ -223,7 +301,7 @@ def Ren.addC (ρ : Ren) (k n : Nat) : Ren := ⟨fun i => if i = k then n else ρ
 def Ren.addO (ρ : Ren) (k n : Nat) : Ren := ⟨ρ.c, fun i => if i = k then n else ρ.o i⟩
 
 theorem HRelH.allocCell {ρ : Ren} {hp : Heap} {h : List (List Val)} {a : Heap} (R : HRelH ρ hp h a) (fr : List Val)
-    (hfr : oks h.length a fr) (hokH : ∀ c ∈ h, oks h.length a c) (hokA : ∀ id ys, a.get? id = some (.arr ys) → oks h.length a ys) :
+    (hfr : oks h.length a fr) (hokH : ∀ c ∈ h, oks h.length a c) (hokA : ∀ id o, a.get? id = some o → okO h.length a o) :
     HRelH (ρ.addC h.length hp.next) (hp.alloc (.arr (fr.map (rn ρ)))).1 (h ++ [fr]) a := by
   have hc : ∀ i, i < h.length → (ρ.addC h.length hp.next).c i = ρ.c i := by
     intro i hi
@@ -255,7 +333,7 @@ theorem HRelH.allocCell {ρ : Ren} {hp : Heap} {h : List (List Val)} {a : Heap} 
   · intro id ys hid
     have hne : ρ.o id ≠ hp.next := by have := (R.ob id _ hid).1; omega
     show (hp.alloc _).1.get? (ρ.o id) = _
-    rw [get?_alloc_other hp _ _ hne, map_rn_congr (hokA id ys hid) hc ho]
+    rw [get?_alloc_other hp _ _ hne, rnO_congr (hokA id ys hid) hc ho]
     exact R.objs id ys hid
   · intro id hid
     simp only [List.length_append, List.length_cons, List.length_nil] at hid
@@ -299,19 +377,19 @@ theorem HRelH.allocCell {ρ : Ren} {hp : Heap} {h : List (List Val)} {a : Heap} 
       show hp.next ≠ ρ.o j
       omega
 
-theorem HRelH.allocObj {ρ : Ren} {hp : Heap} {h : List (List Val)} {a : Heap} (R : HRelH ρ hp h a) (xs : List Val)
-    (hxs : oks h.length a xs) (hokH : ∀ c ∈ h, oks h.length a c) (hokA : ∀ id ys, a.get? id = some (.arr ys) → oks h.length a ys) :
-    HRelH (ρ.addO a.next hp.next) (hp.alloc (.arr (xs.map (rn ρ)))).1 h (a.alloc (.arr xs)).1 := by
+theorem HRelH.allocObj {ρ : Ren} {hp : Heap} {h : List (List Val)} {a : Heap} (R : HRelH ρ hp h a) (xs : HObj)
+    (hxs : okO h.length a xs) (hokH : ∀ c ∈ h, oks h.length a c) (hokA : ∀ id o, a.get? id = some o → okO h.length a o) :
+    HRelH (ρ.addO a.next hp.next) (hp.alloc (rnO ρ xs)).1 h (a.alloc xs).1 := by
   have hc : ∀ i, i < h.length → (ρ.addO a.next hp.next).c i = ρ.c i := fun _ _ => rfl
   have ho : ∀ i o, a.get? i = some o → (ρ.addO a.next hp.next).o i = ρ.o i := by
     intro i o hi
     have : i ≠ a.next := by have := R.ab i o hi; omega
     simp [Ren.addO, this]
   have hself : (ρ.addO a.next hp.next).o a.next = hp.next := by simp [Ren.addO]
-  have hold : ∀ id o, id ≠ a.next → (a.alloc (.arr xs)).1.get? id = some o → a.get? id = some o := by
+  have hold : ∀ id o, id ≠ a.next → (a.alloc xs).1.get? id = some o → a.get? id = some o := by
     intro id o hne hid
     rwa [get?_alloc_other a _ _ hne] at hid
-  have hnew : ∀ o, (a.alloc (.arr xs)).1.get? a.next = some o → o = .arr xs := by
+  have hnew : ∀ o, (a.alloc xs).1.get? a.next = some o → o = xs := by
     intro o ho'
     rw [get?_alloc_self] at ho'
     exact (Option.some.inj ho').symm
@@ -327,11 +405,11 @@ theorem HRelH.allocObj {ρ : Ren} {hp : Heap} {h : List (List Val)} {a : Heap} (
     by_cases hx : id = a.next
     · subst hx
       have := hnew _ hid
-      cases this
-      rw [hself, get?_alloc_self, map_rn_congr hxs hc ho]
+      subst this
+      rw [hself, get?_alloc_self, rnO_congr hxs hc ho]
     · have hid' := hold id _ hx hid
       have hne : ρ.o id ≠ hp.next := by have := (R.ob id _ hid').1; omega
-      rw [ho id _ hid', get?_alloc_other hp _ _ hne, map_rn_congr (hokA id ys hid') hc ho]
+      rw [ho id _ hid', get?_alloc_other hp _ _ hne, rnO_congr (hokA id ys hid') hc ho]
       exact R.objs id ys hid'
   · intro id hid
     show ρ.c id < _
@@ -422,11 +500,11 @@ theorem HRelH.setCell {ρ : Ren} {hp : Heap} {h : List (List Val)} {a : Heap} (R
     obtain ⟨o0, h0⟩ := get?_set_some hid'
     exact R.hb id' o0 h0
 
-/-- `xs[i] = v` in an array object -/
-theorem HRelH.setObj {ρ : Ren} {hp : Heap} {h : List (List Val)} {a : Heap} (R : HRelH ρ hp h a) {id i : Nat} {ys : List Val} {v : Val}
-    (hid : a.get? id = some (.arr ys)) :
-    HRelH ρ (hp.set (ρ.o id) (.arr ((ys.map (rn ρ)).set i (rn ρ v)))) h (a.set id (.arr (ys.set i v))) := by
-  have hpres : ∀ id' o, (a.set id (.arr (ys.set i v))).get? id' = some o → ∃ o0, a.get? id' = some o0 := fun id' o h => get?_set_some h
+/-- an existing container gets new contents -/
+theorem HRelH.setObj {ρ : Ren} {hp : Heap} {h : List (List Val)} {a : Heap} (R : HRelH ρ hp h a) {id : Nat} {o0 : HObj}
+    (hid : a.get? id = some o0) (o' : HObj) :
+    HRelH ρ (hp.set (ρ.o id) (rnO ρ o')) h (a.set id o') := by
+  have hpres : ∀ id' o, (a.set id o').get? id' = some o → ∃ o0, a.get? id' = some o0 := fun id' o h => get?_set_some h
   refine ⟨?_, ?_, R.cb, ?_, ?_, ?_, R.hpos, R.cinj, ?_, ?_⟩
   · intro id' fr hid'
     have hlt := lt_of_get? hid'
@@ -439,8 +517,7 @@ theorem HRelH.setObj {ρ : Ren} {hp : Heap} {h : List (List Val)} {a : Heap} (R 
     · subst hx
       rw [get?_set_self hid] at hid'
       cases hid'
-      rw [get?_set_self (R.objs id' ys hid)]
-      simp [List.map_set]
+      rw [get?_set_self (R.objs id' o0 hid)]
     · rw [get?_set_other hx] at hid'
       have hne : ρ.o id' ≠ ρ.o id := fun he => hx (R.oinj id' id _ _ hid' hid he)
       rw [get?_set_other hne]
@@ -590,7 +667,7 @@ structure FRelH (K : List Val) (ρ : Ren) (fs : FSt) (d : List Bool) (vs : Vm.St
   okS : oks fs.h.length fs.a fs.stk
   okG : oks fs.h.length fs.a fs.g
   okH : ∀ c ∈ fs.h, oks fs.h.length fs.a c
-  okA : ∀ id ys, fs.a.get? id = some (.arr ys) → oks fs.h.length fs.a ys
+  okA : ∀ id o, fs.a.get? id = some o → okO fs.h.length fs.a o
   okF : ∀ x ∈ fs.act :: fs.callers, x.cid < fs.h.length
 
 variable {K : List Val} {F : FnDef → Option (List Instr)} {ρ : Ren}
@@ -657,10 +734,15 @@ theorem falsey_rel {hp : Heap} (R : HRelH ρ hp h a) {v : Val} (hv : okv h.lengt
   case arr id xs =>
     obtain ⟨_, ys, hy⟩ := hv
     have hne : (ρ.o id == 0) = false := by simpa using (R.ob id _ hy).2
-    have hg : hp.getArr (ρ.o id) = ys.map (rn ρ) := by unfold Heap.getArr; rw [R.objs id ys hy]
+    have hg : hp.getArr (ρ.o id) = ys.map (rn ρ) := by unfold Heap.getArr; rw [R.objs id _ hy]; first | done | rfl
     have ha : a.getArr id = ys := by unfold Heap.getArr; rw [hy]
     simp [rn, reify, reifyDepth, hne, hg, falseyH, ha, Val.isFalsey, isEmpty_map]
-  case map => exact hv.elim
+  case map id kvs =>
+    obtain ⟨_, ps, hy⟩ := hv
+    have hne : (ρ.o id == 0) = false := by simpa using (R.ob id _ hy).2
+    have hg : hp.getMap (ρ.o id) = ps.map (rnP ρ) := by unfold Heap.getMap; rw [R.objs id _ hy]; first | done | rfl
+    have ha : a.getMap id = ps := by unfold Heap.getMap; rw [hy]
+    simp [rn, reify, reifyDepth, hne, hg, falseyH, ha, Val.isFalsey, isEmpty_map]
 
 set_option hygiene false in
 macro "fh_pre" : tactic => `(tactic| (
@@ -1006,7 +1088,7 @@ theorem FRelH.step {f : Frame} {rest : List Frame} (R : FRelH K ρ ⟨act, stk, 
     (hρc : ∀ i, i < h.length → ρ'.c i = ρ.c i) (hlen : h.length ≤ h'.length)
     (hst : SRel vs'.stack vs'.sp (stk'.map (rn ρ')) d') (hsz : vs'.stack.size = vs.stack.size) (hg : GRel vs'.globals (g'.map (rn ρ')))
     (hh : HRelH ρ' vs'.heap h' a') (hs : oks h'.length a' stk') (hsg : oks h'.length a' g') (hsh : ∀ c ∈ h', oks h'.length a' c)
-    (hsa : ∀ id ys, a'.get? id = some (.arr ys) → oks h'.length a' ys) :
+    (hsa : ∀ id o, a'.get? id = some o → okO h'.length a' o) :
     FRelH K ρ' ⟨{ act with pc := pc' }, stk', g', h', a', callers⟩ d' vs' := by
   have hfs := R.frames
   rw [hf] at hfs
@@ -1022,6 +1104,222 @@ theorem FRelH.step {f : Frame} {rest : List Frame} (R : FRelH K ρ ⟨act, stk, 
       · exact Nat.lt_of_lt_of_le (R.okF act (by simp)) hlen
       · exact Nat.lt_of_lt_of_le (R.okF x (by simp [hx])) hlen
 
+/-! ### maps with plain keys: `Core/Fn`'s association view is the `HashMap` model -/
+
+section maps
+open P2sh.Core.Fn (insertKV lookupKV buildMap mkMap isNullV)
+
+theorem view_plain (a : Heap) {v : Val} (h : plain v = true) : view a v = v := reify_scalar _ _ (plain_scalar h)
+
+def keysPlain (ps : List (Val × Val)) : Prop := ∀ p ∈ ps, plain p.1 = true
+
+theorem insertKV_eq (a : Heap) {k : Val} (hk : plain k = true) (v : Val) :
+    ∀ (ps : List (Val × Val)), keysPlain ps → insertKV a k v ps = (HMap.insert ps k v).1
+  | [], _ => rfl
+  | (k0, v0) :: rest, h => by
+    have hk0 : plain k0 = true := h (k0, v0) (by simp)
+    have ih := insertKV_eq a hk v rest (fun p hp => h p (by simp [hp]))
+    simp only [insertKV, HMap.insert, view_plain a hk, view_plain a hk0]
+    by_cases hm : HMap.keyMatch k k0 = true
+    · simp [hm]
+    · simp [hm, ih]
+
+theorem insert_keys {k : Val} (hk : plain k = true) (v : Val) :
+    ∀ (ps : List (Val × Val)), keysPlain ps → keysPlain (HMap.insert ps k v).1
+  | [], _ => by intro p hp; simp [HMap.insert] at hp; subst hp; exact hk
+  | (k0, v0) :: rest, h => by
+    have ih := insert_keys hk v rest (fun p hp => h p (by simp [hp]))
+    simp only [HMap.insert]
+    by_cases hm : HMap.keyMatch k k0 = true
+    · simp only [hm, if_true]
+      intro p hp
+      rcases List.mem_cons.mp hp with rfl | hp
+      · exact h (k0, v0) (by simp)
+      · exact h p (by simp [hp])
+    · simp only [hm, Bool.false_eq_true, if_false]
+      intro p hp
+      rcases List.mem_cons.mp hp with rfl | hp
+      · exact h (k0, v0) (by simp)
+      · exact ih p hp
+
+theorem insert_vals {P : Val → Prop} {k v : Val} (hv : P v) :
+    ∀ (ps : List (Val × Val)), (∀ p ∈ ps, P p.2) → ∀ p ∈ (HMap.insert ps k v).1, P p.2
+  | [], _ => by intro p hp; simp [HMap.insert] at hp; subst hp; exact hv
+  | (k0, v0) :: rest, h => by
+    have ih := insert_vals (k := k) hv rest (fun p hp => h p (by simp [hp]))
+    simp only [HMap.insert]
+    by_cases hm : HMap.keyMatch k k0 = true
+    · simp only [hm, if_true]
+      intro p hp
+      rcases List.mem_cons.mp hp with rfl | hp
+      · exact hv
+      · exact h p (by simp [hp])
+    · simp only [hm, Bool.false_eq_true, if_false]
+      intro p hp
+      rcases List.mem_cons.mp hp with rfl | hp
+      · exact h (k0, v0) (by simp)
+      · exact ih p hp
+
+/-- renaming the values commutes with `HashMap::insert` (the keys are untouched) -/
+theorem insert_rnP (ρ : Ren) (k v : Val) :
+    ∀ (ps : List (Val × Val)), (HMap.insert (ps.map (rnP ρ)) k (rn ρ v)).1 = ((HMap.insert ps k v).1).map (rnP ρ)
+  | [] => rfl
+  | (k0, v0) :: rest => by
+    have ih := insert_rnP ρ k v rest
+    simp only [List.map_cons, rnP, HMap.insert]
+    by_cases hm : HMap.keyMatch k k0 = true
+    · simp [hm, rnP]
+    · simp only [hm, Bool.false_eq_true, if_false, List.map_cons, rnP]
+      rw [ih]
+
+theorem zip_self_map (f : (Val × Val) × (Val × Val) → Val × Val) (hf : ∀ x y, f (x, y) = (x.1, y.2)) :
+    ∀ (l : List (Val × Val)), (l.zip l).map f = l
+  | [] => rfl
+  | p :: l => by simp [hf, zip_self_map f hf l]
+
+theorem insert_shape (f : (Val × Val) × (Val × Val) → Val × Val) (hf : ∀ x y, f (x, y) = (x.1, y.2)) (k v : Val) :
+    ∀ (L : List (Val × Val)),
+      ((HMap.insert L k v).1.length = L.length ∧ (L.zip (HMap.insert L k v).1).map f = (HMap.insert L k v).1) ∨
+      ((HMap.insert L k v).1.length = L.length + 1 ∧ L ++ [(k, v)] = (HMap.insert L k v).1)
+  | [] => Or.inr ⟨rfl, rfl⟩
+  | (k0, v0) :: rest => by
+    simp only [HMap.insert]
+    by_cases hm : HMap.keyMatch k k0 = true
+    · left
+      simp [hm, hf, zip_self_map f hf rest]
+    · simp only [hm, Bool.false_eq_true, if_false]
+      rcases insert_shape f hf k v rest with ⟨h1, h2⟩ | ⟨h1, h2⟩
+      · left; simp [h1, h2, hf]
+      · right; simp [h1, ← h2]
+
+/-- what `build_map` / `exec_index_expr` store: the entries with their ORIGINAL keys are the table after `insert` -/
+theorem insert_stored (f : (Val × Val) × (Val × Val) → Val × Val) (hf : ∀ x y, f (x, y) = (x.1, y.2)) (k v : Val) (L : List (Val × Val)) :
+    (if ((HMap.insert L k v).1.length == L.length) = true then (L.zip (HMap.insert L k v).1).map f else L ++ [(k, v)]) = (HMap.insert L k v).1 := by
+  rcases insert_shape f hf k v L with ⟨h1, h2⟩ | ⟨h1, h2⟩
+  · simp [h1, h2]
+  · simp [h1, h2]
+
+theorem lookupKV_eq (a : Heap) {k : Val} (hk : plain k = true) :
+    ∀ (ps : List (Val × Val)), keysPlain ps → lookupKV a k ps = HMap.get? ps k
+  | [], _ => rfl
+  | (k0, v0) :: rest, h => by
+    have hk0 : plain k0 = true := h (k0, v0) (by simp)
+    have ih := lookupKV_eq a hk rest (fun p hp => h p (by simp [hp]))
+    simp only [lookupKV, HMap.get?, view_plain a hk, view_plain a hk0, List.find?_cons]
+    by_cases hm : HMap.keyMatch k k0 = true
+    · simp [hm]
+    · simp only [hm, Bool.false_eq_true, if_false]
+      rw [ih]; rfl
+
+theorem get?_rnP (ρ : Ren) (k : Val) : ∀ (ps : List (Val × Val)), HMap.get? (ps.map (rnP ρ)) k = (HMap.get? ps k).map (rn ρ)
+  | [] => rfl
+  | (k0, v0) :: rest => by
+    have ih := get?_rnP ρ k rest
+    simp only [HMap.get?, List.map_cons, rnP, List.find?_cons] at ih ⊢
+    by_cases hm : HMap.keyMatch k k0 = true
+    · simp [hm]
+    · simp only [hm, Bool.false_eq_true, if_false]
+      exact ih
+
+/-- the keys at the even positions (`k1, v1, k2, v2, …`) are plain -/
+def plainKeys : List Val → Bool
+  | k :: _ :: rest => plain k && plainKeys rest
+  | _ => true
+
+theorem reify_keys {hp : Heap} {n : Nat} : ∀ {ps : List (Val × Val)}, keysPlain ps → ps.map (fun p => (reify hp n p.1, p.2)) = ps
+  | [], _ => rfl
+  | p :: ps, h => by
+    have h1 := h p (by simp)
+    simp [reify_scalar _ _ (plain_scalar h1), reify_keys (ps := ps) (fun q hq => h q (List.mem_cons_of_mem _ hq))]
+
+theorem wpe_mapM_read {α β : Type} (f : α → M β) (g : St → α → β)
+    (hf : ∀ x (Q : β → St → Prop) (E : Res → St → Prop) s, wpe (f x) Q E s ↔ Q (g s x) s) :
+    ∀ (l : List α) (Q : List β → St → Prop) (E : Res → St → Prop) (s : St), wpe (l.mapM f) Q E s ↔ Q (l.map (g s)) s := by
+  intro l
+  induction l with
+  | nil => intro Q E s; simp only [List.mapM_nil, wpe_pure, List.map_nil]
+  | cons x l ih =>
+    intro Q E s
+    rw [List.mapM_cons]
+    simp only [wpe_bind, hf, ih, wpe_pure, List.map_cons]
+
+/-- `build_map` in the VM on the renamed operands (plain keys) yields `Core/Fn`'s `buildMap`, the values renamed; the state is
+untouched -/
+theorem wpe_build {a : Heap} (ρ : Ren) (line : Nat) (Q : List (Val × Val) → St → Prop) (E : Res → St → Prop) (s : St) :
+    ∀ (xs : List Val) (acc res : List (Val × Val)), plainKeys xs = true → keysPlain acc → buildMap a xs acc = some res →
+      Q (res.map (rnP ρ)) s → wpe (step.build line (xs.map (rn ρ)) (acc.map (rnP ρ)) (acc.map (rnP ρ))) Q E s
+  | [], acc, res, _, _, hb, hq => by
+    simp only [buildMap, Option.some.injEq] at hb
+    subst hb
+    unfold step.build
+    simpa only [List.map_nil, wpe_pure] using hq
+  | [k], acc, res, _, _, hb, _ => by simp [buildMap] at hb
+  | k :: v :: rest, acc, res, hpk, hacc, hb, hq => by
+    simp only [plainKeys, Bool.and_eq_true] at hpk
+    simp only [buildMap] at hb
+    by_cases hvk : k.isValidKey = true
+    case neg => simp [hvk] at hb
+    simp only [hvk, if_true] at hb
+    have hins : insertKV a k v acc = (HMap.insert acc k v).1 := insertKV_eq a hpk.1 v acc hacc
+    have ih := wpe_build ρ line Q E s rest (insertKV a k v acc) res hpk.2 (by rw [hins]; exact insert_keys hpk.1 v acc hacc) hb hq
+    unfold step.build
+    simp only [List.map_cons, rn_plain ρ hpk.1, wpe_bind, wpe_reifyM, reify_scalar _ _ (plain_scalar hpk.1), hvk, Bool.not_true,
+      Bool.false_eq_true, if_false, wpe_ite, wpe_pure]
+    cases hi : HMap.insert (acc.map (rnP ρ)) k (rn ρ v) with
+    | mk r o =>
+      have hr : r = (HMap.insert (acc.map (rnP ρ)) k (rn ρ v)).1 := by rw [hi]
+      simp only []
+      rw [hr, insert_stored _ (fun _ _ => rfl), insert_rnP, ← hins]
+      exact ih
+
+theorem keysPlain_rnP (ρ : Ren) {ps : List (Val × Val)} (h : keysPlain ps) : keysPlain (ps.map (rnP ρ)) := by
+  intro p hp
+  obtain ⟨q, hq, rfl⟩ := List.mem_map.mp hp
+  exact h q hq
+
+/-- the keys of a map object are reified one by one (`exec_index_expr`): the state is only read -/
+theorem wpe_reifyKeys (kvs : List (Val × Val)) (Q : List (Val × Val) → St → Prop) (E : Res → St → Prop) (s : St) :
+    wpe (kvs.mapM fun (a, b) => do return (← reifyM a, b)) Q E s ↔ Q (kvs.map fun p => (reify s.heap reifyDepth p.1, p.2)) s :=
+  wpe_mapM_read _ (fun s p => (reify s.heap reifyDepth p.1, p.2))
+    (by intro ⟨a, b⟩ Q E s; simp only [wpe_bind, wpe_reifyM, wpe_pure]) kvs Q E s
+
+theorem buildMap_ok {hn : Nat} {a : Heap} : ∀ (xs : List Val) (acc res : List (Val × Val)), plainKeys xs = true → oks hn a xs →
+    okO hn a (.map acc) → buildMap a xs acc = some res → okO hn a (.map res)
+  | [], acc, res, _, _, hacc, hb => by
+    simp only [buildMap, Option.some.injEq] at hb
+    subst hb; exact hacc
+  | [k], acc, res, _, _, _, hb => by simp [buildMap] at hb
+  | k :: v :: rest, acc, res, hpk, hxs, hacc, hb => by
+    simp only [plainKeys, Bool.and_eq_true] at hpk
+    simp only [buildMap] at hb
+    by_cases hvk : k.isValidKey = true
+    case neg => simp [hvk] at hb
+    simp only [hvk, if_true] at hb
+    have hkp : keysPlain acc := fun p hp => (hacc p hp).1
+    have hins : insertKV a k v acc = (HMap.insert acc k v).1 := insertKV_eq a hpk.1 v acc hkp
+    refine buildMap_ok rest (insertKV a k v acc) res hpk.2 (oks_tail (oks_tail hxs)) ?_ hb
+    rw [hins]
+    intro p hp
+    exact ⟨insert_keys hpk.1 v acc hkp p hp, insert_vals (P := okv hn a) (hxs v (by simp)) acc (fun q hq => (hacc q hq).2) p hp⟩
+
+theorem get?_mem {ps : List (Val × Val)} {k w : Val} (h : HMap.get? ps k = some w) : ∃ p ∈ ps, p.2 = w := by
+  unfold HMap.get? at h
+  cases hf : ps.find? (fun e => HMap.keyMatch k e.1) with
+  | none => simp [hf] at h
+  | some e =>
+    simp only [hf, Option.some.injEq] at h
+    exact ⟨e, List.mem_of_find?_eq_some hf, h⟩
+
+/-- the side condition on `GetIndex` / `SetIndex` of a MAP: the key is a plain value -/
+def idxPlain : List Val → Bool
+  | i :: .map _ _ :: _ => plain i
+  | _ => true
+
+theorem getMap_of_get? {a : Heap} {id : Nat} {ps : List (Val × Val)} (h : a.get? id = some (.map ps)) : a.getMap id = ps := by
+  unfold Heap.getMap; rw [h]
+
+end maps
+
 /-! ### `Array`, `GetIndex`, `SetIndex` (arrays) -/
 
 /-- `reflect` leaves a renamed well-formed value alone: a plain value and a closure are not containers, an array
@@ -1034,7 +1332,12 @@ theorem reflect_rn {hp : Heap} (R : HRelH ρ hp h a) {v : Val} (hv : okv h.lengt
     cases n with
     | zero => rfl
     | succ n => simp [rn, reflect, hne]
-  case map => exact hv.elim
+  case map id kvs =>
+    obtain ⟨rfl, ps, hy⟩ := hv
+    have hne : (ρ.o id != 0) = true := by simpa using (R.ob id _ hy).2
+    cases n with
+    | zero => rfl
+    | succ n => simp [rn, reflect, hne]
   all_goals exact reflect_scalar hp n rfl
 
 theorem foldl_reflect {hp : Heap} {n : Nat} : ∀ (l acc : List Val), (∀ x ∈ l, reflect hp n x = (hp, x)) →
@@ -1056,10 +1359,6 @@ theorem reflect_newArr {hp : Heap} {l : List Val} (hl : ∀ x ∈ l, reflect hp 
   rfl
 
 theorem encodeI_array (n : Nat) : Core.encodeI (.array n) = [22, n % 65536 / 256 % 256, n % 65536 % 256] := enc3 22 n
-
-theorem get?_alloc_old {a : Heap} {o : HObj} (hab : ∀ id o, a.get? id = some o → id < a.next) {id : Nat} {ys : List Val}
-    (hid : a.get? id = some (.arr ys)) : (a.alloc o).1.get? id = some (.arr ys) := by
-  rw [get?_alloc_other a _ _ (by have := hab id _ hid; omega)]; exact hid
 
 theorem step_array {n : Nat} (R : FRelH K ρ ⟨act, stk, g, h, a, callers⟩ d vs) (hfetch : fetch act.code act.pc = some (.array n))
     (hstep : fstep K F ⟨act, stk, g, h, a, callers⟩ = some fs') (hd : (d.take n).all id = true)
@@ -1094,15 +1393,14 @@ theorem step_array {n : Nat} (R : FRelH K ρ ⟨act, stk, g, h, a, callers⟩ d 
   rw [hmapE] at helems
   simp only [wpe_bind, wpe_readU16 _ _ _ _ _ _ _ h1 h2, dec16 (fits16 hfi), wpe_get, hnsp, wpe_ite, wpe_panicM, wpe_set, wpe_reflectM,
     helems, reflect_newArr hrefl, wpe_push, wpe_setIp, wpe_pure, finish, wpe_curFrame, withIp, hf, hroom, ↓reduceIte]
-  have hH := R.heap.allocObj (stk.take n).reverse hokE R.okH R.okA
+  have hH := R.heap.allocObj (.arr (stk.take n).reverse) hokE R.okH R.okA
   have hc : ∀ i, i < h.length → (ρ.addO a.next vs.heap.next).c i = ρ.c i := fun _ _ => rfl
   have ho : ∀ i o, a.get? i = some o → (ρ.addO a.next vs.heap.next).o i = ρ.o i := by
     intro i o hi
     have hlt : i < a.next := R.heap.ab i o hi
     have : i ≠ a.next := by omega
     simp [Ren.addO, this]
-  have hmono : ∀ id ys, a.get? id = some (.arr ys) → ∃ ys', (a.alloc (.arr (stk.take n).reverse)).1.get? id = some (.arr ys') :=
-    fun id ys hid => ⟨ys, get?_alloc_old R.heap.ab hid⟩
+  have hmono : Keeps a (a.alloc (.arr (stk.take n).reverse)).1 := Keeps.alloc R.heap.ab _
   refine ⟨ρ.addO a.next vs.heap.next, ?_⟩
   refine R.step hf (by simp [hipc]) rfl hc (Nat.le_refl _) ?_ (by simp) ?_ hH ?_ (oks_mono (Nat.le_refl _) hmono R.okG)
     (fun c hc' => oks_mono (Nat.le_refl _) hmono (R.okH c hc')) ?_
@@ -1122,24 +1420,94 @@ theorem step_array {n : Nat} (R : FRelH K ρ ⟨act, stk, g, h, a, callers⟩ d 
       cases hid
       exact oks_mono (Nat.le_refl _) hmono hokE
     · rw [get?_alloc_other a _ _ hx] at hid
-      exact oks_mono (Nat.le_refl _) hmono (R.okA id ys hid)
+      exact okO_mono (Nat.le_refl _) hmono (R.okA id ys hid)
+
+theorem encodeI_hmap (n : Nat) : Core.encodeI (.hmap n) = [23, n % 65536 / 256 % 256, n % 65536 % 256] := enc3 23 n
+
+/-- `Map n` with plain keys: the VM's `build_map` builds `Core/Fn`'s entries (values renamed), then ONE new object -/
+theorem step_hmap {n : Nat} (R : FRelH K ρ ⟨act, stk, g, h, a, callers⟩ d vs) (hfetch : fetch act.code act.pc = some (.hmap n))
+    (hstep : fstep K F ⟨act, stk, g, h, a, callers⟩ = some fs') (hd : (d.take n).all id = true)
+    (hkeys : plainKeys (stk.take n).reverse = true) (hpost : postOk (.hmap n) fs' = true) : GoalH K fs' (true :: d.drop n) vs := by
+  fh_pre
+  rw [encodeI_hmap] at hcode
+  have hnm := opname (b := 23) (name := "Map") hcode hip rfl rfl
+  obtain ⟨h1, h2⟩ := operands16 hcode hip
+  unfold step; simp only [hnm]
+  unfold fstep at hstep
+  simp only [hfetch] at hstep
+  have hlen : (stk.map (rn ρ)).length = vs.sp := R.stack.length.1
+  by_cases hn : n ≤ stk.length
+  case neg => simp [hn] at hstep
+  simp only [hn, if_true, P2sh.Core.Fn.mkMap] at hstep
+  cases hb : P2sh.Core.Fn.buildMap a (stk.take n).reverse [] with
+  | none => simp [hb] at hstep
+  | some kvs =>
+    simp only [hb, allocH_eq, Option.some.injEq] at hstep
+    subst hstep
+    have hnsp : ¬ vs.sp < n := by simp at hlen; omega
+    have helems := R.stack.topN n hd (by simp at hlen; omega)
+    have hs1 := R.stack.dropN n (by simp at hlen; omega)
+    have hroom : vs.sp - n < vs.stack.size := by
+      have hb := post_stk hpost
+      have hsz := R.size
+      have hl1 := hs1.length.1
+      simp at hb hl1
+      omega
+    have hokE : oks h.length a (stk.take n).reverse := oks_reverse (oks_take R.okS n)
+    have hmapE : ((stk.map (rn ρ)).take n).reverse = ((stk.take n).reverse).map (rn ρ) := by simp [List.map_take, List.map_reverse]
+    rw [hmapE] at helems
+    have hokM : okO h.length a (.map kvs) := buildMap_ok _ [] kvs hkeys hokE (fun p hp => by cases hp) hb
+    simp only [wpe_bind, wpe_readU16 _ _ _ _ _ _ _ h1 h2, dec16 (fits16 hfi), wpe_get, hnsp, wpe_ite, wpe_panicM, wpe_pure, helems, ↓reduceIte]
+    refine wpe_build (a := a) ρ line _ _ vs _ [] kvs hkeys (fun p hp => by cases hp) hb ?_
+    simp only [wpe_bind, wpe_modify, wpe_get, Heap.alloc, wpe_set, wpe_push, wpe_setIp, wpe_pure, finish, wpe_curFrame, withIp, hf, hroom,
+      ↓reduceIte]
+    have hH := R.heap.allocObj (.map kvs) hokM R.okH R.okA
+    simp only [Heap.alloc, rnO] at hH
+    have hc : ∀ i, i < h.length → (ρ.addO a.next vs.heap.next).c i = ρ.c i := fun _ _ => rfl
+    have ho : ∀ i o, a.get? i = some o → (ρ.addO a.next vs.heap.next).o i = ρ.o i := by
+      intro i o hi
+      have hlt : i < a.next := R.heap.ab i o hi
+      have : i ≠ a.next := by omega
+      simp [Ren.addO, this]
+    have hmono : Keeps a (a.alloc (.map kvs)).1 := Keeps.alloc R.heap.ab _
+    refine ⟨ρ.addO a.next vs.heap.next, ?_⟩
+    refine R.step hf (by simp [hipc]) rfl hc (Nat.le_refl _) ?_ (by simp) ?_ hH ?_ (oks_mono (Nat.le_refl _) hmono R.okG)
+      (fun c hc' => oks_mono (Nat.le_refl _) hmono (R.okH c hc')) ?_
+    · have hp := hs1.push hroom (.map vs.heap.next [])
+      have e1 : (stk.drop n).map (rn (ρ.addO a.next vs.heap.next)) = (stk.map (rn ρ)).drop n := by
+        rw [map_rn_congr (oks_drop R.okS n) hc ho, List.map_drop]
+      have e2 : rn (ρ.addO a.next vs.heap.next) (.map a.next []) = .map vs.heap.next [] := by
+        simp [rn, Ren.addO]
+      simp only [List.map_cons, e1, e2]
+      exact hp
+    · rw [map_rn_congr R.okG hc ho]; exact R.globals
+    · refine oks_cons ⟨rfl, _, get?_alloc_self a _⟩ (oks_mono (Nat.le_refl _) hmono (oks_drop R.okS n))
+    · intro id o hid0
+      have hid : (a.alloc (.map kvs)).1.get? id = some o := hid0
+      by_cases hx : id = a.next
+      · subst hx
+        rw [get?_alloc_self] at hid
+        cases hid
+        exact okO_mono (Nat.le_refl _) hmono hokM
+      · rw [get?_alloc_other a _ _ hx] at hid
+        exact okO_mono (Nat.le_refl _) hmono (R.okA id o hid)
 
 theorem getArr_of_get? {a : Heap} {id : Nat} {ys : List Val} (h : a.get? id = some (.arr ys)) : a.getArr id = ys := by
   unfold Heap.getArr; rw [h]
 
 /-- `c[i]` for an array: the VM reads the renamed element of the renamed object -/
 theorem step_getIndex (R : FRelH K ρ ⟨act, stk, g, h, a, callers⟩ d vs) (hfetch : fetch act.code act.pc = some .getIndex)
-    (hstep : fstep K F ⟨act, stk, g, h, a, callers⟩ = some fs') (hd : (d.take 2).all id = true) :
+    (hstep : fstep K F ⟨act, stk, g, h, a, callers⟩ = some fs') (hd : (d.take 2).all id = true) (hkey : idxPlain stk = true) :
     GoalR K ρ fs' (true :: d.drop 2) vs := by
   fh_pre
   have hnm := opname (b := 24) (name := "GetIndex") hcode hip rfl rfl
   unfold step; simp only [hnm]
   unfold fstep at hstep
   simp only [hfetch] at hstep
-  match stk, R, hstep with
-  | [], _, hstep => simp at hstep
-  | [_], _, hstep => simp at hstep
-  | i :: c :: rest', R, hstep =>
+  match stk, R, hstep, hkey with
+  | [], _, hstep, _ => simp at hstep
+  | [_], _, hstep, _ => simp at hstep
+  | i :: c :: rest', R, hstep, hkey =>
     simp only at hstep
     cases hg : getIndexH a c i with
     | none => simp [hg] at hstep
@@ -1160,7 +1528,7 @@ theorem step_getIndex (R : FRelH K ρ ⟨act, stk, g, h, a, callers⟩ d vs) (hf
           case pos => simp [hneg] at hg
           simp only [hneg, if_false] at hg
           have hk : idx.toNatClampNeg < ys.length := lt_of_get? hg
-          have hgV : vs.heap.getArr (ρ.o id) = ys.map (rn ρ) := getArr_of_get? (R.heap.objs id ys hy)
+          have hgV : vs.heap.getArr (ρ.o id) = ys.map (rn ρ) := getArr_of_get? (R.heap.objs id _ hy)
           have hnge : ¬ idx.toNatClampNeg ≥ (ys.map (rn ρ)).length := by simp; omega
           have helt : (ys.map (rn ρ)).getD idx.toNatClampNeg .null = rn ρ v := by
             rw [List.getD_eq_getElem?_getD, List.getElem?_map, hg]; rfl
@@ -1169,27 +1537,61 @@ theorem step_getIndex (R : FRelH K ρ ⟨act, stk, g, h, a, callers⟩ d vs) (hf
           simp only [wpe_bind, wpe_pop, n1, n2, e1, e2, ↓reduceIte, execIndex, wpe_get, hgV, hneg, hnge, wpe_ite, wpe_rtErr, helt,
             wpe_push, hroom, wpe_pure, finish, wpe_curFrame, wpe_setIp, withIp, hf]
           refine R.next hf (by rw [hipc]) rfl ?_ (by simp) R.globals R.heap
-            (oks_cons (R.okA id ys hy v (List.mem_of_getElem? hg)) (oks_tail (oks_tail R.okS))) R.okG
+            (oks_cons (R.okA id _ hy v (List.mem_of_getElem? hg)) (oks_tail (oks_tail R.okS))) R.okG
           have := s2.push hroom (rn ρ v)
           simpa [List.drop_drop] using this
         | _ => simp [getIndexH] at hg
-      | map id kvs => exact hokc.elim
+      | map id kvs =>
+        obtain ⟨rfl, ps, hy⟩ := hokc
+        have hpi : plain i = true := by simpa [idxPlain] using hkey
+        have hokps := R.okA id _ hy
+        have hkp : keysPlain ps := fun p hp => (hokps p hp).1
+        simp only [getIndexH, getMap_of_get? hy] at hg
+        by_cases hvk : i.isValidKey = true
+        case neg => simp [hvk] at hg
+        simp only [hvk, if_true, lookupKV_eq a hpi ps hkp] at hg
+        cases hl : HMap.get? ps i with
+        | none => simp [hl] at hg
+        | some w =>
+          simp only [hl] at hg
+          by_cases hnull : P2sh.Core.Fn.isNullV w = true
+          case pos => simp [hnull] at hg
+          simp only [hnull, Bool.false_eq_true, if_false, Option.some.injEq] at hg
+          subst hg
+          have hgV : vs.heap.getMap (ρ.o id) = ps.map (rnP ρ) := getMap_of_get? (R.heap.objs id _ hy)
+          have hgetV : HMap.get (ps.map (rnP ρ)) i = rn ρ w := by simp [HMap.get, get?_rnP, hl]
+          have hroom : vs.sp - 1 - 1 < vs.stack.size := by have := R.stack.1; omega
+          simp only [rn] at e2
+          rw [rn_plain ρ hpi] at e1
+          simp only [wpe_bind, wpe_pop, n1, n2, e1, e2, ↓reduceIte, execIndex, wpe_get, wpe_reifyM, reify_scalar _ _ (plain_scalar hpi), hvk,
+            Bool.not_true, Bool.false_eq_true, wpe_ite, wpe_pure, wpe_reifyKeys, hgV, reify_keys (keysPlain_rnP ρ hkp), hgetV]
+          split
+          · rename_i heq
+            exfalso
+            cases w <;> simp [rn, P2sh.Core.Fn.isNullV] at heq hnull
+          · simp only [wpe_push, hroom, wpe_pure, finish, wpe_curFrame, wpe_setIp, withIp, hf, wpe_bind, ↓reduceIte]
+            obtain ⟨pw, hpw, hw⟩ := get?_mem hl
+            have hokw : okv h.length a w := hw ▸ (hokps pw hpw).2
+            refine R.next hf (by rw [hipc]) rfl ?_ (by simp) R.globals R.heap
+              (oks_cons hokw (oks_tail (oks_tail R.okS))) R.okG
+            have := s2.push hroom (rn ρ w)
+            simpa [List.drop_drop] using this
       | _ => simp [getIndexH] at hg
 
 /-- `c[i] = v` for an array: the VM changes the renamed object -/
 theorem step_setIndex (R : FRelH K ρ ⟨act, stk, g, h, a, callers⟩ d vs) (hfetch : fetch act.code act.pc = some .setIndex)
-    (hstep : fstep K F ⟨act, stk, g, h, a, callers⟩ = some fs') (hd : (d.take 3).all id = true) :
+    (hstep : fstep K F ⟨act, stk, g, h, a, callers⟩ = some fs') (hd : (d.take 3).all id = true) (hkey : idxPlain stk = true) :
     GoalR K ρ fs' (true :: d.drop 3) vs := by
   fh_pre
   have hnm := opname (b := 25) (name := "SetIndex") hcode hip rfl rfl
   unfold step; simp only [hnm]
   unfold fstep at hstep
   simp only [hfetch] at hstep
-  match stk, R, hstep with
-  | [], _, hstep => simp at hstep
-  | [_], _, hstep => simp at hstep
-  | [_, _], _, hstep => simp at hstep
-  | i :: c :: v :: rest', R, hstep =>
+  match stk, R, hstep, hkey with
+  | [], _, hstep, _ => simp at hstep
+  | [_], _, hstep, _ => simp at hstep
+  | [_, _], _, hstep, _ => simp at hstep
+  | i :: c :: v :: rest', R, hstep, hkey =>
     simp only at hstep
     cases hg : setIndexH a c i v with
     | none => simp [hg] at hstep
@@ -1217,19 +1619,16 @@ theorem step_setIndex (R : FRelH K ρ ⟨act, stk, g, h, a, callers⟩ d vs) (hf
           case neg => simp [hk] at hg
           simp only [hk, if_true, Option.some.injEq] at hg
           subst hg
-          have hgV : vs.heap.getArr (ρ.o id) = ys.map (rn ρ) := getArr_of_get? (R.heap.objs id ys hy)
+          have hgV : vs.heap.getArr (ρ.o id) = ys.map (rn ρ) := getArr_of_get? (R.heap.objs id _ hy)
           have hnge : ¬ idx.toNatClampNeg ≥ (ys.map (rn ρ)).length := by simp; omega
           have hroom : vs.sp - 1 - 1 - 1 < vs.stack.size := by have := R.stack.1; omega
           simp only [rn] at e1 e2
           simp only [wpe_bind, wpe_pop, n1, n2, n3, e1, e2, e3, ↓reduceIte, execIndex, wpe_get, hgV, hneg, hnge, wpe_ite, wpe_rtErr,
             wpe_modify, wpe_push, hroom, wpe_pure, finish, wpe_curFrame, wpe_setIp, withIp, hf]
-          have hmono : ∀ id' ys', a.get? id' = some (.arr ys') →
-              ∃ ys'', (a.set id (.arr (ys.set idx.toNatClampNeg v))).get? id' = some (.arr ys'') := by
-            intro id' ys' hid'
-            by_cases hx : id' = id
-            · subst hx; exact ⟨_, get?_set_self hid'⟩
-            · exact ⟨ys', by rw [get?_set_other hx]; exact hid'⟩
-          refine R.step hf (by simp [hipc]) rfl (fun _ _ => rfl) (Nat.le_refl _) ?_ (by simp) R.globals (R.heap.setObj hy)
+          have hmono : Keeps a (a.set id (.arr (ys.set idx.toNatClampNeg v))) := Keeps.setArr hy _
+          have hH := R.heap.setObj hy (.arr (ys.set idx.toNatClampNeg v))
+          simp only [rnO, List.map_set] at hH
+          refine R.step hf (by simp [hipc]) rfl (fun _ _ => rfl) (Nat.le_refl _) ?_ (by simp) R.globals hH
             (oks_cons (okv_mono (Nat.le_refl _) hmono hokv) (oks_mono (Nat.le_refl _) hmono hokr))
             (oks_mono (Nat.le_refl _) hmono R.okG) (fun c hc' => oks_mono (Nat.le_refl _) hmono (R.okH c hc')) ?_
           · have := s3.push hroom (rn ρ v)
@@ -1239,11 +1638,49 @@ theorem step_setIndex (R : FRelH K ρ ⟨act, stk, g, h, a, callers⟩ d vs) (hf
             · subst hx
               rw [get?_set_self hy] at hid'
               cases hid'
-              exact oks_mono (Nat.le_refl _) hmono (oks_set (R.okA id' ys hy) hokv _)
+              exact oks_mono (Nat.le_refl _) hmono (oks_set (R.okA id' _ hy) hokv _)
             · rw [get?_set_other hx] at hid'
-              exact oks_mono (Nat.le_refl _) hmono (R.okA id' ys' hid')
+              exact okO_mono (Nat.le_refl _) hmono (R.okA id' ys' hid')
         | _ => simp [setIndexH] at hg
-      | map id kvs => exact hokc.elim
+      | map id kvs =>
+        obtain ⟨rfl, ps, hy⟩ := hokc
+        have hpi : plain i = true := by simpa [idxPlain] using hkey
+        have hokps := R.okA id _ hy
+        have hkp : keysPlain ps := fun p hp => (hokps p hp).1
+        simp only [setIndexH, getMap_of_get? hy, setH_eq] at hg
+        by_cases hvk : i.isValidKey = true
+        case neg => simp [hvk] at hg
+        simp only [hvk, if_true, Option.some.injEq, insertKV_eq a hpi v ps hkp] at hg
+        subst hg
+        have hgV : vs.heap.getMap (ρ.o id) = ps.map (rnP ρ) := getMap_of_get? (R.heap.objs id _ hy)
+        have hroom : vs.sp - 1 - 1 - 1 < vs.stack.size := by have := R.stack.1; omega
+        simp only [rn] at e2
+        rw [rn_plain ρ hpi] at e1
+        cases hi : HMap.insert (ps.map (rnP ρ)) i (rn ρ v) with
+        | mk r o =>
+          have hr : r = (HMap.insert (ps.map (rnP ρ)) i (rn ρ v)).1 := by rw [hi]
+          simp only [wpe_bind, wpe_pop, n1, n2, n3, e1, e2, e3, ↓reduceIte, execIndex, wpe_get, wpe_reifyM, reify_scalar _ _ (plain_scalar hpi), hvk,
+            Bool.not_true, Bool.false_eq_true, wpe_ite, wpe_pure, wpe_reifyKeys, hgV, reify_keys (keysPlain_rnP ρ hkp), hi]
+          rw [hr, insert_stored _ (fun _ _ => rfl), insert_rnP]
+          simp only [wpe_modify, wpe_push, hroom, wpe_pure, finish, wpe_curFrame, wpe_setIp, withIp, hf, wpe_bind, ↓reduceIte]
+          have hmono : Keeps a (a.set id (.map (HMap.insert ps i v).1)) := Keeps.setMap hy _
+          have hH := R.heap.setObj hy (.map (HMap.insert ps i v).1)
+          simp only [rnO] at hH
+          refine R.step hf (by simp [hipc]) rfl (fun _ _ => rfl) (Nat.le_refl _) ?_ (by simp) R.globals hH
+            (oks_cons (okv_mono (Nat.le_refl _) hmono hokv) (oks_mono (Nat.le_refl _) hmono hokr))
+            (oks_mono (Nat.le_refl _) hmono R.okG) (fun c hc' => oks_mono (Nat.le_refl _) hmono (R.okH c hc')) ?_
+          · have := s3.push hroom (rn ρ v)
+            simpa [List.drop_drop] using this
+          · intro id' o' hid'
+            by_cases hx : id' = id
+            · subst hx
+              rw [get?_set_self hy] at hid'
+              cases hid'
+              refine okO_mono (Nat.le_refl _) hmono (o := .map (HMap.insert ps i v).1) ?_
+              intro p hp
+              exact ⟨insert_keys hpi v ps hkp p hp, insert_vals (P := okv h.length a) hokv ps (fun q hq => (hokps q hq).2) p hp⟩
+            · rw [get?_set_other hx] at hid'
+              exact okO_mono (Nat.le_refl _) hmono (R.okA id' o' hid')
       | _ => simp [setIndexH] at hg
 
 /-! ### operators (plain operands), locals, captured values -/
@@ -1545,7 +1982,7 @@ theorem step_setFree {x : Nat} (R : FRelH K ρ ⟨act, stk, g, h, a, callers⟩ 
         rw [hA.cid]
         have hl : (h.set act.cid (fr.set x v)).length = h.length := by simp
         refine R.step hf (by simp [hipc, hA.bp, hA.cid]) rfl (fun _ _ => rfl) (by simp) R.stack rfl R.globals (R.heap.setCell hc hx)
-          (oks_len hl.symm R.okS) (oks_len hl.symm R.okG) ?_ (fun id ys hid => oks_len hl.symm (R.okA id ys hid))
+          (oks_len hl.symm R.okS) (oks_len hl.symm R.okG) ?_ (fun id ys hid => okO_len hl.symm (R.okA id ys hid))
         intro c hcm
         rcases List.mem_or_eq_of_mem_set hcm with hcm | rfl
         · exact oks_len hl.symm (R.okH c hcm)
@@ -1606,10 +2043,10 @@ theorem step_closure {c n : Nat} (R : FRelH K ρ ⟨act, stk, g, h, a, callers
         simp [Ren.addC, this]
       have ho : ∀ i o, a.get? i = some o → (ρ.addC h.length vs.heap.next).o i = ρ.o i := fun _ _ _ => rfl
       have hle : h.length ≤ (h ++ [(stk.take n).reverse]).length := by simp
-      have hmono : ∀ id ys, a.get? id = some (.arr ys) → ∃ ys', a.get? id = some (.arr ys') := fun id ys hid => ⟨ys, hid⟩
+      have hmono : Keeps a a := Keeps.refl a
       refine ⟨ρ.addC h.length vs.heap.next, ?_⟩
       refine R.step hf (by simp [hipc]) rfl hc hle ?_ (by simp) ?_ hH ?_ (oks_mono hle hmono R.okG) ?_
-        (fun id ys hid => oks_mono hle hmono (R.okA id ys hid))
+        (fun id ys hid => okO_mono hle hmono (R.okA id ys hid))
       · have hp := hs1.push hroom (.clos fd [] vs.heap.next)
         have e1 : (stk.drop n).map (rn (ρ.addC h.length vs.heap.next)) = (stk.map (rn ρ)).drop n := by
           rw [map_rn_congr (oks_drop R.okS n) hc ho, List.map_drop]
@@ -1768,15 +2205,16 @@ theorem step_ret (R : FRelH K ρ ⟨act, stk, g, h, a, callers⟩ d vs) (hfetch 
 
 /-! ## one step of the machine with frames is one iteration of the VM's loop — with arrays -/
 
-/-- the side conditions BEFORE instruction `i`: as `FnVm.preOk` for the instructions of `FnVm`; `Array n`, `GetIndex`,
-`SetIndex` are now COVERED (their operands must be defined slots); an operator needs plain operands (`plainTop2`);
-`Map` is not covered (nor are calls of builtins: `FnVm.preOk` asks the callee of a `Call` to be a closure) -/
+/-- the side conditions BEFORE instruction `i`: as `FnVm.preOk` for the instructions of `FnVm`; `Array n`, `Map n`, `GetIndex`,
+`SetIndex` are now COVERED (their operands must be defined slots; the keys of a `Map n` and the key used on a map must be plain:
+`plainKeys`, `idxPlain`); an operator needs plain operands (`plainTop2`); calls of builtins are not covered (`FnVm.preOk` asks the
+callee of a `Call` to be a closure) -/
 def preOkH (i : Instr) (s : FSt) (d : List Bool) : Bool :=
   match i with
   | .array n => (d.take n).all id
-  | .getIndex => (d.take 2).all id
-  | .setIndex => (d.take 3).all id
-  | .hmap _ => false
+  | .hmap n => (d.take n).all id && plainKeys (s.stk.take n).reverse
+  | .getIndex => (d.take 2).all id && idxPlain s.stk
+  | .setIndex => (d.take 3).all id && idxPlain s.stk
   | .op _ => preOk i s d && plainTop2 s.stk
   | _ => preOk i s d
 
@@ -1784,14 +2222,15 @@ def preOkH (i : Instr) (s : FSt) (d : List Bool) : Bool :=
 def nextDH (i : Instr) (s : FSt) (d : List Bool) : List Bool :=
   match i with
   | .array n => true :: d.drop n
+  | .hmap n => true :: d.drop n
   | .getIndex => true :: d.drop 2
   | .setIndex => true :: d.drop 3
   | _ => nextD i s d
 
-/-- **one `fstep` is one iteration of `VM::run`, arrays included**: `Array n`, `GetIndex` and `SetIndex` on arrays, and every
-instruction of `FnVm.fstep_refines_partial`.  The states are related through a renaming of heap ids that an allocation
-(`Closure`, `Array`) extends: `∃ ρ'`.  NOT covered (`_partial`): `Map` and map values, calls of builtins, operators on
-operands that are closures or containers (`preOkH`). -/
+/-- **one `fstep` is one iteration of `VM::run`, containers included**: `Array n`, `Map n`, `GetIndex` and `SetIndex` on arrays
+and on maps, and every instruction of `FnVm.fstep_refines_partial`.  The states are related through a renaming of heap ids that an
+allocation (`Closure`, `Array`, `Map`) extends: `∃ ρ'`.  NOT covered (`_partial`, see `preOkH`): map keys that are not plain
+values, calls of builtins, operators on operands that are closures or containers. -/
 theorem fstep_refines_heap_partial {fs fs' : FSt} {d : List Bool} {vs : Vm.St} {i : Instr} (hF : Coded F) (R : FRelH K ρ fs d vs)
     (hfetch : fetch fs.act.code fs.act.pc = some i) (hstep : fstep K F fs = some fs')
     (hpre : preOkH i fs d = true) (hpost : postOk i fs' = true) :
@@ -1831,9 +2270,15 @@ theorem fstep_refines_heap_partial {fs fs' : FSt} {d : List Bool} {vs : Vm.St} {
   | setFree x => exact (step_setFree R hfetch hstep hpre).toH
   | getBuiltin x => exact (step_getBuiltin R hfetch hstep hpost).toH
   | array n => exact step_array R hfetch hstep hpre hpost
-  | hmap n => simp [preOkH] at hpre
-  | getIndex => exact (step_getIndex R hfetch hstep hpre).toH
-  | setIndex => exact (step_setIndex R hfetch hstep hpre).toH
+  | hmap n =>
+    simp only [preOkH, Bool.and_eq_true] at hpre
+    exact step_hmap R hfetch hstep hpre.1 hpre.2 hpost
+  | getIndex =>
+    simp only [preOkH, Bool.and_eq_true] at hpre
+    exact (step_getIndex R hfetch hstep hpre.1 hpre.2).toH
+  | setIndex =>
+    simp only [preOkH, Bool.and_eq_true] at hpre
+    exact (step_setIndex R hfetch hstep hpre.1 hpre.2).toH
 
 /-! ## runs -/
 
@@ -2006,9 +2451,9 @@ def checkedRunH (K : List Val) (F : FnDef → Option (List Instr)) (k : Nat) (x 
 theorem plains_of_all {l : List Val} (hl : l.all plain = true) : plains l := fun v hv => (List.all_eq_true.mp hl) v hv
 
 open P2sh.Core.Fn (FTop FDecl evalT phiT codeT codesT constsT compileT lookupFd program_correct_fn) in
-/-- **a terminating evaluation of a program with functions, closures AND ARRAYS ⇒ `Vm.run` on the encoded main code ends
+/-- **a terminating evaluation of a program with functions, closures, ARRAYS AND MAPS (plain keys) ⇒ `Vm.run` on the encoded main code ends
 normally**, the VM's globals being the evaluator's globals renamed, and the VM's heap holding the evaluator's closure cells
-and array objects (`HRelH`), for some renaming `ρ'` of heap ids.  `hchk`: the run of the machine with frames passes the
+and container objects (`HRelH`), for some renaming `ρ'` of heap ids.  `hchk`: the run of the machine with frames passes the
 checks `preOkH` / `postOk` at each of its `k` steps (an executable predicate). -/
 theorem program_run_refines_heap_partial (T : List FTop) (efuel n k : Nat) (a' : Heap) (g' : List Val) (h' : List (List Val))
     (he : evalT (phiT T) efuel (List.replicate n .null) [[]] {} T = some (g', h', a'))
@@ -2085,7 +2530,7 @@ theorem array_run : ∃ fuel vs', Vm.run exMain (constsT prog) fuel = (.ok (), v
   refine ⟨fuel, vs', hrun, ?_, ⟨ρ'.o 1, ?_, ?_⟩, hsp, hfr⟩
   · exact hg.2.2 2
   · exact hg.2.2 0
-  · exact hh.objs 1 [.int 1, .int 5] rfl
+  · exact hh.objs 1 (.arr [.int 1, .int 5]) rfl
 
 /-! ### why closures need the renaming too -/
 
@@ -2103,6 +2548,59 @@ theorem closure_ids_shift :
   constructor
   · rfl
   · decide +kernel
+
+/-! ### maps -/
+
+/-- `let m = map {'a': 10, 'b': 20};  m['a'] = 11;  m['c'] = [7];  let z = m['a'];  let w = m['c'][0];` — an existing key is
+overwritten, a new key is added with an ARRAY as its value, both are read back (character keys: the hash stream of an
+integer key goes through `Float`, which the kernel cannot evaluate) -/
+def progM : List FTop :=
+  [.stmt (.letG 1 0 (.mapLit 1 (argsOf [.lit 1 (.char 'a'), .lit 1 (.int 10), .lit 1 (.char 'b'), .lit 1 (.int 20)]))),
+   .stmt (.expr 2 (.setIndex 2 (.gget 2 0) (.lit 2 (.char 'a')) (.lit 2 (.int 11)))),
+   .stmt (.expr 3 (.setIndex 3 (.gget 3 0) (.lit 3 (.char 'c')) (.arrLit 3 (argsOf [.lit 3 (.int 7)])))),
+   .stmt (.letG 4 1 (.index 4 (.gget 4 0) (.lit 4 (.char 'a')))),
+   .stmt (.letG 5 2 (.index 5 (.index 5 (.gget 5 0) (.lit 5 (.char 'c'))) (.lit 5 (.int 0))))]
+
+example : compileT 0 0 progM =
+    [.const 0, .const 1, .const 2, .const 3, .hmap 4, .defGlobal 0, .const 4, .getGlobal 0, .const 5, .setIndex, .pop,
+     .const 6, .array 1, .getGlobal 0, .const 7, .setIndex, .pop, .getGlobal 0, .const 8, .getIndex, .defGlobal 1,
+     .getGlobal 0, .const 9, .getIndex, .const 10, .getIndex, .defGlobal 2] := by rfl
+
+def exMainM : FnDef := ⟨Core.encode (compileT 0 0 progM), List.replicate (Core.encode (compileT 0 0 progM)).length 1, 0, 0, 0⟩
+
+/-- the side conditions (plain keys included) hold along the 27 steps -/
+theorem progM_checked : checkedRunH (constsT progM) (codeT progM) 27 (progInit progM 3 {}, []) = true := by decide +kernel
+
+open P2sh.FnVm.Stale (isInt) in
+/-- the evaluator: `z = 11`, `w = 7` -/
+theorem progM_eval : (match evalT (phiT progM) 40 (List.replicate 3 .null) [[]] {} progM with
+    | some (g, _, _) => isInt 11 (g.getD 1 .null) && isInt 7 (g.getD 2 .null)
+    | none => false) = true := by decide +kernel
+
+open P2sh.FnVm.Stale (isInt) in
+theorem isInt_rn (ρ : Ren) {n : Int} {v : Val} (h : isInt n v = true) : isInt n (rn ρ v) = true := by
+  cases v <;> first | exact h | simp [isInt] at h
+
+open P2sh.FnVm.Stale (isInt) in
+/-- **the run-level theorem on a program with a map**: `Vm.run` ends normally, `z = 11` (the overwritten entry), `w = 7` (read
+through the array stored under the new key `'c'`) -/
+theorem map_run : ∃ fuel vs', Vm.run exMainM (constsT progM) fuel = (.ok (), vs') ∧
+      isInt 11 (vs'.globals.getD 1 .null) = true ∧ isInt 7 (vs'.globals.getD 2 .null) = true ∧ vs'.sp = 0 ∧ vs'.frames.length = 1 := by
+  have hev := progM_eval
+  cases he : evalT (phiT progM) 40 (List.replicate 3 .null) [[]] {} progM with
+  | none => rw [he] at hev; cases hev
+  | some r =>
+    obtain ⟨g', h', a'⟩ := r
+    rw [he] at hev
+    simp only [Bool.and_eq_true] at hev
+    obtain ⟨fuel, vs', ρ', hrun, hg, hh, hsp, hfr⟩ :=
+      program_run_refines_heap_partial progM 40 3 27 a' g' h' he exMainM rfl (by simp [exMainM]) (by decide) rfl (by decide)
+        (plains_of_all rfl) (by decide) progM_checked
+    have e1 : vs'.globals.getD 1 .null = rn ρ' (g'.getD 1 .null) :=
+      ((hg.2.2 1).trans (List.getD_eq_getElem?_getD ..)).trans (getD_map_rn ρ' g' 1)
+    have e2 : vs'.globals.getD 2 .null = rn ρ' (g'.getD 2 .null) :=
+      ((hg.2.2 2).trans (List.getD_eq_getElem?_getD ..)).trans (getD_map_rn ρ' g' 2)
+    exact ⟨fuel, vs', hrun, by rw [e1]; exact isInt_rn ρ' hev.1, by rw [e2]; exact isInt_rn ρ' hev.2, hsp, hfr⟩
 
 end Example
 
@@ -2143,6 +2641,8 @@ end Deep
 #print axioms step_getIndex
 #print axioms step_setIndex
 #print axioms Example.array_run
+#print axioms Example.map_run
+#print axioms step_hmap
 #print axioms Example.closure_ids_shift
 #print axioms Deep.deep_eq_diverges
 
